@@ -573,8 +573,21 @@ impl Shape {
                             return other.clone();
                         }
                     }
+                    // Record the pair before expanding so that a recursive occurrence of
+                    // the same constraint against the same shape is answered from the
+                    // cache instead of being expanded forever. While the expansion is in
+                    // progress the self-reference contributes nothing (it is no match).
+                    seen.push((
+                        cref.val.clone(),
+                        other.clone(),
+                        Shape::TypeErr(
+                            cref.pos.clone(),
+                            format!("Recursive constraint '{}' does not match", cref.val),
+                        ),
+                    ));
+                    let idx = seen.len() - 1;
                     let result = other.narrow_cached(&expanded, symbol_table, seen);
-                    seen.push((cref.val.clone(), other.clone(), result.clone()));
+                    seen[idx].2 = result.clone();
                     result
                 } else {
                     Shape::TypeErr(
